@@ -6,6 +6,7 @@ import time
 from common import Rule, finish
 from hirtab import ANY, C, L, T, adt_variants, callees, candidates, lit_value
 from hirutil import find, lit_str, strip, walk
+from mirutil import Body, op_local, rvalue_reads
 
 
 def lit_bytes(e):
@@ -358,6 +359,66 @@ def run(facts, tier):
     if not {"Null", "BStr"} <= rej:
         t6.violate("toml-reject", f"the TOML writer rejects {sorted(rej)}; null and byte strings have no TOML representation and must be rejected")
     rules.append(t6.finish())
+
+
+    # ---------------- T14.7 clamped lengths are allocation hints only
+    t7 = Rule("T14.7", "in the format readers a declared length that has been clamped (`min`/`clamp` against a bound) is used only as an allocation hint "
+              "(with_capacity / reserve), never as the bound of the element loop, an element count (take/nth/skip) or the function's result: containers longer than the bound "
+              "are truncated or mis-framed when read back", floor=3)
+    HINT = re.compile(r"::(with_capacity|with_capacity_in|reserve|reserve_exact|try_reserve|try_reserve_exact)$")
+    nbodies = 0
+    for f in facts.mir_find(r"^jaq_fmts::read::|^jaq_json::read::", None):
+        b = Body(f)
+        nbodies += 1
+        for i in b.find_calls(r"::(min|clamp)$"):
+            t = b.bbs[i]["t"]
+            if not any("k" in a for a in t["args"][1:]):
+                continue  # no constant bound: not a clamp against a fixed capacity
+            al = {t["d"]["l"]}
+            bad, other = [], []  # `other` uses (chunked copying and the like) are reported in the evidence, not as violations
+            changed = True
+            while changed:
+                changed = False
+                for bb in b.bbs:
+                    for s_ in bb["st"]:
+                        if s_.get("k") != "A":
+                            continue
+                        reads = rvalue_reads(s_["r"])
+                        if not (set(reads) & al):
+                            continue
+                        if s_["r"]["k"] == "Use" and not s_["p"].get("pr"):
+                            if s_["p"]["l"] == 0:
+                                bad.append("returned")
+                            elif s_["p"]["l"] not in al:
+                                al.add(s_["p"]["l"])
+                                changed = True
+                        elif s_["r"]["k"] == "Agg" and "core::ops::range::Range" in (s_["r"].get("ak") or ""):
+                            bad.append("a loop bound")
+                        elif s_["r"]["k"] == "Agg" and s_["p"]["l"] == 0:
+                            bad.append("returned")
+                        else:
+                            other.append(s_["r"]["k"])
+            for j, tt in b.calls():
+                if j == i:
+                    continue
+                if any(op_local(a) in al for a in tt["args"]):
+                    c = Body.callee(tt) or "?"
+                    if re.search(r"Iterator::(take|nth|skip|step_by)$|::repeat_n$", c) or re.search(r"Iterator::(take|nth|skip|step_by)$", tt.get("fn") or ""):
+                        bad.append("the element count of " + c.split("::")[-1])
+                    elif not HINT.search(c) and not HINT.search(tt.get("fn") or ""):
+                        other.append("passed to " + c)
+            for bb in b.bbs:
+                tt = bb["t"]
+                if tt["k"] == "Switch" and op_local(tt["o"]) in al:
+                    other.append("branched on")
+            if t["d"]["l"] == 0:
+                bad.append("returned")
+            t7.examined((f["def"], i), True, {"fn": f["def"], "clamp": t.get("fn"), "uses": sorted(set(bad + other)) or ["allocation hint only"]})
+            if bad:
+                t7.violate(f"{f['def']}", f"{f['def']}: a length clamped by `{(t.get('fn') or '').split('::')[-1]}` is {', '.join(sorted(set(bad)))}; only the allocation may be bounded, the element count must stay the declared one", where=t.get("sp") or f.get("sp"))
+    if nbodies < 20:
+        t7.missing_anchor(f"reader bodies (found {nbodies})")
+    rules.append(t7.finish())
 
     explanation = ("Full round trips for all values are value-level and not decided (known gaps found by reading are listed in DESIGN.md D8). Decided: the first-party reader and writer tables agree "
                    "(TSV and CSV escapes are mutual inverses, CBOR kinds, XML keys, YAML special literals, domain errors), extracted from the typed HIR.")
